@@ -93,9 +93,12 @@ def concurrent_big_value_cases(tier, seed):
     for j in range(4 if tier == "quick" else 30):
         nb = [4, 6, 8][j % 3]
         rows = [120, 300][j % 2]
-        brs = [{"body": [{"k": "step", "val": [{"id": r, "pair": (r, str(b)), "tags": ["x", b]} for r in range(rows)]}, {"k": "wait", "s": 1}, {"k": "step", "val": b}]} for b in range(nb)]
+        brs = [{"body": [{"k": "step", "script": [{"do": "ok", "val": [{"id": r, "pair": (r, str(b)), "tags": ["x", b]} for r in range(rows)], "gate": "go"}]},
+                         {"k": "wait", "s": 1}, {"k": "step", "val": b}]} for b in range(nb)]
         node = {"k": "par", "branches": brs, "cfg": {"tol_n": 99}}
+        # every step function is held until all of them have been entered, so that they return - and their results are serialized - together
         yield {"label": "concurrent-large-results", "prog": {"body": [node, {"k": "step", "val": "end"}]}, "prog_seed": 25900 + j, "pattern": {"p": "plain"},
+               "holds": [{"match": {"kind": "gate", "name": "go"}, "until": {"event": {"kind": "gate", "name": "go", "count": nb}}}],
                "opts": {"perturb": {"p": 0.02, "seed": seed * 7 + j, "files": ["serdes.py"], "sleep_p": 0.3, "max_sleep": 0.001}} if j % 2 else {}}
 
 
